@@ -6,7 +6,7 @@
 (* replay-spec` from the real smartcore DBSCAN.  One event per data set:   *)
 (*                                                                         *)
 (*  {run, ev:"Run", src, case, pts:[[c1,..,cd],..], key:"man"|"euc2",      *)
-(*   eps, minPts, metric, ty, scaleExp, qs:[[..],..],                      *)
+(*   eps, minPts, metric, ty, scaleExp, qs:[[..],..], enc:{M,L,K}, api,    *)
 (*   fits:[{backend:"linear"|"cover", status:"ok"|"err"|"panic"|"timeout", *)
 (*          y:[..], k, pstatus, pint, out:[..]}, ..]}                      *)
 (*                                                                         *)
@@ -14,6 +14,17 @@
 (* the fitted model, `out` the labels predict returned for the query rows  *)
 (* `qs` (pint = all of them were integers).  Coordinates, eps are the      *)
 (* integers of DbscanProps (the harness fed 2^scaleExp times them).        *)
+(*                                                                         *)
+(* TWO-LEVEL CODES (multi-scale family).  When enc.M > 0 an integer c of   *)
+(* pts / qs is a code for the real coordinate (c div M) * 2^K + (c mod M),  *)
+(* with c mod M < L.  Under the side conditions of EncodingOK -- checked    *)
+(* on every event -- "within eps" is the same relation on codes and on real *)
+(* coordinates: two rows that agree in every (c div M) have equal code and  *)
+(* real differences; two rows that differ in some (c div M) are farther     *)
+(* than eps apart both as codes (>= M - L > eps) and as reals               *)
+(* (>= 2^K - L >= M - L).  So the integer predicates judge the codes.       *)
+(* `api` says whether the inherent methods or the smartcore::api trait      *)
+(* methods were called; the property does not depend on it.                 *)
 (*                                                                         *)
 (* Every clause of the property is evaluated with the operators of         *)
 (* DbscanProps -- the same ones the design model Dbscan.tla is checked     *)
@@ -31,6 +42,7 @@
 (*                Predict/<backend>/<NoResult|Malformed|OutOfRange|        *)
 (*                      EmptyNbhdNotNoise/out=<label>|NotPlurality>        *)
 (*                Backend/<CoreLabelsDiffer|NoiseSetDiffers>               *)
+(*                Harness/Encoding   (a two-level code breaks its contract) *)
 (***************************************************************************)
 EXTENDS DbscanProps, Json, IOUtils
 
@@ -91,10 +103,22 @@ BackendFails(fits, n, core) ==
                 \cup Unless(SameNoiseSet(n, fits[a].y, fits[b].y), "Backend/NoiseSetDiffers")
            ELSE {} : a \in 1..Len(fits), b \in 1..Len(fits)}
 
+(* side conditions of the two-level code (see the header) *)
+EncodingOK(e) ==
+    \/ e.enc.M = 0
+    \/ /\ e.enc.L > 0 /\ e.enc.L < e.enc.M /\ e.enc.M <= 1048576 /\ e.enc.K >= 20
+       /\ \A i \in 1..Len(e.pts) : \A j \in 1..Len(e.pts[i]) :
+              e.pts[i][j] >= 0 /\ (e.pts[i][j] % e.enc.M) < e.enc.L
+       /\ \A i \in 1..Len(e.qs) : \A j \in 1..Len(e.qs[i]) :
+              e.qs[i][j] >= 0 /\ (e.qs[i][j] % e.enc.M) < e.enc.L
+       /\ IF e.key = "man" THEN e.eps < e.enc.M - e.enc.L
+          ELSE e.enc.M - e.enc.L < 46000 /\ e.eps < (e.enc.M - e.enc.L) * (e.enc.M - e.enc.L)
+
 AllFails(e, n, D, cnb, core, comp, qnbs) ==
     UNION {FitFails(e.fits[a], n, D, cnb, core, comp) \cup PredictFails(e.fits[a], n, qnbs)
            : a \in 1..Len(e.fits)}
     \cup BackendFails(e.fits, n, core)
+    \cup Unless(EncodingOK(e), "Harness/Encoding")
 
 (* ------------------------------------------------------------------------ *)
 (* what kind of case it was (measurement only)                               *)
